@@ -49,6 +49,7 @@ def FUNCTIONS():
 
 BOUNDS = dict(C02.BOUNDS)
 BOUNDS['trees_quick'] = 'quick tier: trees 1,3,5,7,9,12,13 of T; second deviation in {nominal, FAIL_AND_CONTINUE, STOP, exception}'
+BOUNDS['trees_thorough'] = 'thorough tier: the 14 quick trees of T, both deviations over all 13 kinds (the 8 extra trees are covered structurally by C02 thorough)'
 BOUNDS['script'] = 'any two phases deviate from nominal with any of 13 kinds each (None, FAIL_AND_CONTINUE, SKIP, FAIL_SUBTEST, STOP, REPEAT, failing/unset/marginal measurement, exception, listed failure exception, timeout, non-PhaseResult, CONTINUE), later invocations None/REPEAT, diagnoser codes, stop_on_first_failure, allow_unset_measurements'
 BOUNDS['ladder lemma'] = 'arbitrary executor state satisfying the invariant "ERROR phase record => terminal last outcome or abort": abort flag, last outcome kind (none / non-terminal / STOP / exception / listed failure exception / timeout), <= 3 phase record outcomes, <= 1 diagnosis (failure bit), <= 1 subtest outcome (fixed mixed record set when abort/terminal outcome decide)'
 ASSUMPTIONS = C02.ASSUMPTIONS + ['measurements of a phase whose outcome is SKIP (SKIP result / non-final REPEAT) are not part of the verdict (the phase counts as skipped by a documented rule)']
@@ -60,7 +61,7 @@ _V2Q = (0, 1, 4, 7)                # second deviation in the quick tier: nominal
 
 
 @cond(timeout=1500, split={'ti': _QT, 'i1': range(5), 'v1': range(13), 'wide': (False,)},
-      split_thorough={'ti': range(NA), 'i1': range(5), 'v1': range(13), 'wide': (True,)}, timeout_thorough=5400)
+      split_thorough={'ti': range(NQ), 'i1': range(5), 'v1': range(13), 'wide': (True,)}, timeout_thorough=5400)
 def c_tree_outcome(ti: int, i1: int, v1: int, i2: int, v2: int, rb: int, g0: int, g1: int, soff: bool, au: bool, wide: bool) -> bool:
   """
   pre: 0 <= ti < NA
